@@ -114,3 +114,33 @@ package channelmonitor
 //@   establishes shutdownLk -- called by the constructor before the object is shared ("prevent shutdown until after startup")
 //@   modifies mc.unsub
 //@   acquires {C20} channelmonitor.monitoredChannel.shutdownLk
+
+// the monitor's event subscriber and the accept timeout (C14)
+//@ func (*channelmonitor.monitoredChannel).start$1 {C14}
+//@   acquires {C20} channelmonitor.monitoredChannel.restartLk
+//@   requires *mc != nil && channelState != nil && *cancelAcceptTimer != nil && (**mc).restartChannelDebounced != nil
+//@   ensures [own-channel-only] channelState.ChannelID() != (**mc).chid ==> untouched
+//@   ensures [seen-ending-shuts-down] channelState.ChannelID() == (**mc).chid &&
+//@       (channels.IsChannelCleaningUp(channelState.Status()) || channels.IsChannelTerminated(channelState.Status())) ==>
+//@       spawned(monitoredChannel.Shutdown) && only(monitoredChannel.Shutdown)
+//@   ensures [progress-resets-count] channelState.ChannelID() == (**mc).chid &&
+//@       !(channels.IsChannelCleaningUp(channelState.Status()) || channels.IsChannelTerminated(channelState.Status())) &&
+//@       (event.Code == datatransfer.DataSent || event.Code == datatransfer.DataReceived) ==>
+//@       calls(monitoredChannel.resetConsecutiveRestarts) == 1 && only(monitoredChannel.resetConsecutiveRestarts)
+//@   ensures [transport-errors-restart] channelState.ChannelID() == (**mc).chid &&
+//@       !(channels.IsChannelCleaningUp(channelState.Status()) || channels.IsChannelTerminated(channelState.Status())) &&
+//@       (event.Code == datatransfer.SendDataError || event.Code == datatransfer.ReceiveDataError) ==> spawned(dyn.func) && never(monitoredChannel.resetConsecutiveRestarts)
+//@   ensures [finish-starts-complete-timeout] channelState.ChannelID() == (**mc).chid &&
+//@       !(channels.IsChannelCleaningUp(channelState.Status()) || channels.IsChannelTerminated(channelState.Status())) &&
+//@       event.Code == datatransfer.FinishTransfer ==> spawned(monitoredChannel.watchForResponderComplete)
+//@   ensures [accept-stops-accept-timeout] channelState.ChannelID() == (**mc).chid &&
+//@       !(channels.IsChannelCleaningUp(channelState.Status()) || channels.IsChannelTerminated(channelState.Status())) &&
+//@       event.Code == datatransfer.Accept ==> calls(dyn.func) == 1 && only(dyn.func)
+//@   ensures [resets-only-on-progress] calls(monitoredChannel.resetConsecutiveRestarts) == 1 ==> (event.Code == datatransfer.DataSent || event.Code == datatransfer.DataReceived)
+//@ func (*channelmonitor.monitoredChannel).watchForResponderAccept {C14}
+//@   ensures [disabled] (*mc.cfg).AcceptTimeout == 0 ==> untouched && result != nil
+//@   ensures [timer-goroutine] (*mc.cfg).AcceptTimeout != 0 ==> spawned(monitoredChannel.watchForResponderAccept$2) && result != nil
+//@ func (*channelmonitor.monitoredChannel).watchForResponderAccept$2 {C14}
+//@   acquires {C20} channelmonitor.monitoredChannel.shutdownLk, graphsync.Transport.dtChannelsLk, graphsync.dtChannel.lk, tracing.SpansIndex.spansLk
+//@   requires *mc != nil && *timer != nil
+//@   ensures [closes-only-on-timer] calls(monitoredChannel.closeChannelAndShutdown) <= 1
